@@ -35,6 +35,8 @@ pub enum NodeList {
     Closest8,
     /// a fixed list whatever is asked
     Fixed(Vec<([u8; 20], SocketAddr)>),
+    /// the closest 7 plus these extra entries
+    ClosestPlus(Vec<([u8; 20], SocketAddr)>),
     None,
 }
 
@@ -72,6 +74,8 @@ pub struct Responder {
     /// addresses this peer stops naming from the given instant on
     pub forget: Vec<(SocketAddr, u64)>,
     now_cache: u64,
+    /// send every reply twice (same instant)
+    pub duplicate_replies: bool,
 }
 
 impl Responder {
@@ -96,6 +100,7 @@ impl Responder {
             find_node_list: None,
             forget: vec![],
             now_cache: 0,
+            duplicate_replies: false,
         }
     }
 
@@ -116,6 +121,12 @@ impl Responder {
         match list {
             NodeList::None => vec![],
             NodeList::Fixed(v) => v.clone(),
+            NodeList::ClosestPlus(extra) => {
+                let mut v = self.nodes_by(&NodeList::Closest8, target, from);
+                v.truncate(8usize.saturating_sub(extra.len()));
+                v.extend(extra.iter().cloned());
+                v
+            }
             NodeList::Closest8 => {
                 let mut v: Vec<_> = self
                     .universe
@@ -210,6 +221,9 @@ impl Peer for Responder {
             }
             _ => krpc::error(&p.tid, 204, "method unknown"),
         };
+        if self.duplicate_replies {
+            ctx.out.push((from, reply.clone()));
+        }
         ctx.out.push((from, reply));
     }
 }
